@@ -18,6 +18,7 @@ static void *thread_main(void *p) {
   static const char *fams[] = {"mul", "elim", "ple", "solve", "move", "trsm", "inv", "kernel", "rowops", "obs"};
   static const int counts[] = {40, 24, 24, 24, 40, 16, 12, 12, 30, 30};
   pthread_barrier_wait(&bar);
+  vh_firstuse_cases();
   for (int round = 0; round < (t->a.tier ? 6 : 2); round++)
     for (int f = 0; f < 10; f++) {
       vh_args_t a = t->a;
